@@ -299,7 +299,19 @@ type bombKind struct {
 }
 
 var bombKinds = []bombKind{{"struct", false}, {"struct", true}, {"list", false}, {"list", true}, {"map", false}, {"map", true},
-	{"mixed", false}, {"mixed", true}, {"list-len-2^31-1", false}, {"map-len-2^30-1", false}}
+	{"mixed", false}, {"mixed", true}, {"list-len-2^31-1", false}, {"map-len-2^30-1", false},
+	// closing heads as list elements between the levels: LIST of k+1 elements = k x StructEnd, then k-1 nested
+	// StructBegin whose innermost holds the next level (a depth counter that a StructEnd head winds
+	// back would never reach its limit); k around small values and around the skip-depth limit 512
+	{"ends-in-list-k2", false}, {"ends-in-list-k4", false}, {"ends-in-list-k512", false}, {"ends-in-list-k513", false}}
+
+func endsInListK(name string) int {
+	var k int
+	if n, _ := fmt.Sscanf(name, "ends-in-list-k%d", &k); n == 1 {
+		return k
+	}
+	return 0
+}
 
 // bytesPerLevel is the size of one nesting level (closing bytes included).
 func (k bombKind) bytesPerLevel() int {
@@ -320,6 +332,9 @@ func (k bombKind) bytesPerLevel() int {
 		per = 6
 	case "map-len-2^30-1":
 		per = 7
+	}
+	if k := endsInListK(k.name); k > 0 {
+		per = 4 + 2*k - 1 // head, 3-byte length, k closers, k-1 openers
 	}
 	return per
 }
@@ -355,6 +370,17 @@ func bomb(k bombKind, tag uint8, depth int) []byte {
 			b = ref.AppendHead(b, t, ref.WMap)
 			b = append(b, 0x02, 0x3f, 0xff, 0xff, 0xff, 0x0c)
 			t = 1
+		default:
+			n := endsInListK(kind)
+			b = ref.AppendHead(b, t, ref.WList)
+			b = append(b, 0x01, byte((n+1)>>8), byte(n+1)) // length n+1 as SHORT
+			for j := 0; j < n; j++ {
+				b = append(b, 0x0b)
+			}
+			for j := 0; j < n-1; j++ {
+				b = append(b, 0x0a)
+			}
+			t = 0
 		}
 	}
 	if k.closed {
@@ -741,7 +767,7 @@ func buildFamilies(c *famCtx, only string) ([]*family, error) {
 				}})
 		}
 		fams = append(fams, listFamily("nest-head",
-			"10 nesting constructs (StructBegin x d; LIST-of-LIST; MAP-of-MAP; struct/list/map alternating; each left open at the end of input and closed; LIST-of-LIST announcing 2^31-1 and MAP-of-MAP announcing 2^30-1 elements per level) x depth {1,10^3,10^5,10^6, as deep as a 10 MiB frame allows} as a tag-0 field at the start of the input (skipped as unknown wherever tag 0 is not a member), plus each construct filling a 65 531-byte datagram; every entry (quick: depth>=10^5 on the "+fmt.Sprint(len(c.reps))+" representative entries)",
+			"14 nesting constructs (StructBegin x d; LIST-of-LIST; MAP-of-MAP; struct/list/map alternating; each left open at the end of input and closed; LIST-of-LIST announcing 2^31-1 and MAP-of-MAP announcing 2^30-1 elements per level; LIST of k StructEnd heads followed by k-1 nested StructBegin for k in {2,4,512,513}) x depth {1,10^3,10^5,10^6, as deep as a 10 MiB frame allows} as a tag-0 field at the start of the input (skipped as unknown wherever tag 0 is not a member), plus each construct filling a 65 531-byte datagram; every entry (quick: depth>=10^5 on the "+fmt.Sprint(len(c.reps))+" representative entries)",
 			1, true, cs))
 	}
 	if want("nest-insert") {
@@ -804,7 +830,7 @@ func buildFamilies(c *famCtx, only string) ([]*family, error) {
 			}
 		}
 		fams = append(fams, listFamily("nest-insert",
-			"every baseline x every gap between its top-level fields that leaves an unused ascending tag (before the first, between, after the last; for framed structs inside the frame) x the 10 nesting constructs x depth {1,10^3}; for packets, argument buffers, attribute sets and two structs also depth {10^5, (thorough: 10^6,) max}; plus every top-level LIST/MAP/struct member replaced by a bomb of its own wire type; on the baseline's own entries",
+			"every baseline x every gap between its top-level fields that leaves an unused ascending tag (before the first, between, after the last; for framed structs inside the frame) x the 14 nesting constructs x depth {1,10^3}; for packets, argument buffers, attribute sets and two structs also depth {10^5, (thorough: 10^6,) max}; plus every top-level LIST/MAP/struct member replaced by a bomb of its own wire type; on the baseline's own entries",
 			1, true, cs))
 	}
 
